@@ -179,6 +179,21 @@ func (k *KVStore) NewEntry() storage.Entry {
 	return entry.New()
 }
 
+// deleteStale removes the superseded version of hkey (if any) from every table except
+// the last one, which holds the current version. A key lives in at most one table.
+func (k *KVStore) deleteStale(hkey uint64) error {
+	for i := len(k.tables) - 2; i >= 0; i-- {
+		err := k.tables[i].Delete(hkey)
+		if errors.Is(err, table.ErrHKeyNotFound) {
+			continue
+		}
+		if err != nil {
+			return err
+		}
+	}
+	return nil
+}
+
 // PutRaw sets the raw value for the given key.
 func (k *KVStore) PutRaw(hkey uint64, value []byte) error {
 	if uint64(len(value)) >= k.tableSize {
@@ -210,7 +225,7 @@ func (k *KVStore) PutRaw(hkey uint64, value []byte) error {
 		break
 	}
 
-	return nil
+	return k.deleteStale(hkey)
 }
 
 // Put sets the value for the given key. It overwrites any previous value for that key
@@ -245,7 +260,7 @@ func (k *KVStore) Put(hkey uint64, value storage.Entry) error {
 		break
 	}
 
-	return nil
+	return k.deleteStale(hkey)
 }
 
 // GetRaw extracts encoded value for the given hkey. This is useful for merging tables.
